@@ -71,7 +71,7 @@ structure SEE where
   allowDisabled : Bool := false
   opcodePos : Nat := 0
   execdata : ExecData := {}
-  /-- `pretend_valid_map` (signature ↦ pubkey) -/
+  /-- `pretend_valid_map`: the set of (signature, pubkey) pairs -/
   pretendMap : List (Bytes × Bytes) := []
   /-- `pretend_valid_pubkeys` -/
   pretendKeys : List Bytes := []
@@ -221,8 +221,8 @@ def findAndDelete (script b : Bytes) : Bytes × Nat :=
 -- ---------------------------------------------------------------------------------------------
 -- EvalChecksig
 
-def pretendLookup (m : List (Bytes × Bytes)) (sig : Bytes) : Option Bytes :=
-  (m.find? (fun p => p.1 == sig)).map (·.2)
+/-- `pretend_valid_map.count({sig, pubkey}) > 0` on the std::set of (signature, pubkey) pairs -/
+def pretendHas (m : List (Bytes × Bytes)) (sig key : Bytes) : Bool := m.contains (sig, key)
 
 /-- `EvalChecksigPreTapscript`; result = fSuccess -/
 def evalChecksigPreTapscript (cx : Ctx) (e : SEE) (sig key : Bytes) : M Bool := do
@@ -260,7 +260,7 @@ def evalChecksigTapscript (cx : Ctx) (e : SEE) (sig key : Bytes) : M (Bool × Ex
 
 /-- `EvalChecksig`: mock short-circuit, then by signature version -/
 def evalChecksig (cx : Ctx) (e : SEE) (sig key : Bytes) : M (Bool × ExecData) := do
-  if e.pretendKeys.contains key && pretendLookup e.pretendMap sig == some key then
+  if e.pretendKeys.contains key && pretendHas e.pretendMap sig key then
     pure (true, e.execdata)
   else
     match e.sigversion with
@@ -284,7 +284,7 @@ def multisigLoop (cx : Ctx) (e : SEE) (scriptCode : Bytes) (st : List Bytes) :
     let sig ← top st isig
     let key ← top st ikey
     let ok ←
-      if e.pretendKeys.contains key then pure (pretendLookup e.pretendMap sig == some key)
+      if e.pretendKeys.contains key then pure (pretendHas e.pretendMap sig key)
       else do
         checkSignatureEncoding cx sig e.flags
         checkPubKeyEncoding key e.flags e.sigversion
